@@ -70,6 +70,12 @@ Definition rel_import (cur imp : list N) : list N :=
 Definition abs_import (cur imp : list N) : list N :=
   if normalise_import then norm_dots (rel_import cur imp) else rel_import cur imp.
 
+(* as found in the source: with [main_in_root] the main grammar's own name is not parsed for a
+   folder part (its file name may contain dots) *)
+Definition abs_import_src (main cur imp : list N) : list N :=
+  if main_in_root && str_eqb cur main then (if normalise_import then norm_dots imp else imp)
+  else abs_import cur imp.
+
 (* s.split(".", 1) when "." in s *)
 Fixpoint split1 (s : list N) : option (list N * list N) :=
   match s with
@@ -291,15 +297,14 @@ Fixpoint nops_eqb (a b : list nop) : bool :=
    discipline; any other statement list found in the source is outside the model. *)
 Definition stack_balanced : bool := nops_eqb nested_ops [NEnter; NLoad; NLeave].
 
-Definition new_import (rec : list N -> st -> st) (stk : list (list N)) (cur imp : list N) (s : st) : st :=
+Definition new_import (main : list N) (rec : list N -> st -> st) (stk : list (list N)) (cur imp : list N) (s : st) : st :=
   if negb stack_balanced then (if has_err s then s else set_err EFuel s) else
-  if register_import_always then new_import_doc rec stk cur imp s
-  else
-    if has_err s then s else
-    let a := abs_import cur imp in
-    if has_ns s a
-    then (if mem_str a stk then note_back cur a s else s)
-    else let s1 := rec a (enter a s) in if has_err s1 then s1 else add_imported cur a s1.
+  if has_err s then s else
+  let a := abs_import_src main cur imp in
+  if has_ns s a
+  then (let s1 := if mem_str a stk then note_back cur a s else s in
+        if register_import_always then add_imported cur a s1 else s1)
+  else let s1 := rec a (enter a s) in if has_err s1 then s1 else add_imported cur a s1.
 
 (* language_from_str for the grammar file of namespace ns (already entered):
    import statements first (each loads its file completely, both passes), then the rule
@@ -313,7 +318,7 @@ Fixpoint load_doc (fuel : nat) (fs : fsys) (stk : list (list N)) (ns : list N) (
       | O => set_err EFuel s
       | S fuel' =>
           let s0 := log_load ns s in
-          let s1 := fold_left (fun s imp => new_import (load_doc fuel' fs (ns :: stk)) (ns :: stk) ns imp s)
+          let s1 := fold_left (fun s imp => new_import_doc (load_doc fuel' fs (ns :: stk)) (ns :: stk) ns imp s)
                               (gimports f) s0 in
           let s2 := fold_left (fun s r => new_class ns r s) (grules f) s1 in
           second_pass ns f s2
@@ -324,7 +329,7 @@ Fixpoint load_doc (fuel : nat) (fs : fsys) (stk : list (list N)) (ns : list N) (
    are visited, and whether the second pass of a grammar runs before its load returns (i.e.,
    for an imported grammar, inside _new_import, before the importer continues) or is deferred
    until every file has been visited. *)
-Fixpoint load (fuel : nat) (fs : fsys) (stk : list (list N)) (ns : list N) (s : st) : st :=
+Fixpoint load (main : list N) (fuel : nat) (fs : fsys) (stk : list (list N)) (ns : list N) (s : st) : st :=
   if has_err s then s else
   match aget ns fs with
   | None => set_err (EFileNotFound ns) s
@@ -333,7 +338,7 @@ Fixpoint load (fuel : nat) (fs : fsys) (stk : list (list N)) (ns : list N) (s : 
       | O => set_err EFuel s
       | S fuel' =>
           let s0 := log_load ns s in
-          let s1 := fold_left (fun s imp => new_import (load fuel' fs (ns :: stk)) (ns :: stk) ns imp s)
+          let s1 := fold_left (fun s imp => new_import main (load main fuel' fs (ns :: stk)) (ns :: stk) ns imp s)
                               (if imports_in_text_order then gimports f else rev (gimports f)) s0 in
           let s2 := fold_left (fun s r => new_class ns r s) (grules f) s1 in
           if second_pass_inside_import then second_pass ns f s2 else s2
@@ -347,7 +352,7 @@ Definition deferred_passes (fs : fsys) (s : st) : st :=
 Definition load_main_doc (fs : fsys) (main : list N) : st :=
   load_doc (S (length fs)) fs [] main (enter main init).
 Definition load_main (fs : fsys) (main : list N) : st :=
-  let s := load (S (length fs)) fs [] main (enter main init) in
+  let s := load main (S (length fs)) fs [] main (enter main init) in
   if second_pass_inside_import then s else deferred_passes fs s.
 
 (* ---------------------------------------------------------------- the documented resolution *)
